@@ -95,7 +95,7 @@ def gen_program(rng, name, kinds_pool, nregs=None, nsteps=None, ops=None, with_c
     def emit(l, e=None): lines.append(l); exp.append(e)
     for r, k in zip(regs, kinds): emit("new %s %s" % (r, k), "ok"); sh[r] = Shadow(k)
     nsteps = nsteps or rng.randint(15, 90)
-    ops = ops or ["add"] * 6 + ["addw"] * 5 + ["addbin", "merge", "merge", "copy", "clear", "reweight", "obs", "obs", "rank", "rank", "burst", "codec", "foreachstop", "binsch", "badrew", "proto"]
+    ops = ops or ["add"] * 6 + ["addw"] * 5 + ["addbin", "merge", "merge", "copy", "clear", "reweight", "obs", "obs", "rank", "rank", "burst", "codec", "foreachstop", "binsch", "badrew", "proto", "protomk"]
     nrew = 0; nb = 0
     def obs(r): emit("obs " + r, sh[r].obsline())
     def ranks(r):
@@ -151,6 +151,16 @@ def gen_program(rng, name, kinds_pool, nregs=None, nsteps=None, ops=None, with_c
             r2 = rng.choice([x for x in regs if x != r]); nb += 1
             emit("toproto q%d %s" % (nb, r), "ok"); obs(r)
             emit("fromproto %s q%d" % (r2, nb), "ok"); sh[r2].merge(sh[r]); obs(r2)
+        elif op == "protomk" and with_codec:          # a hand-built message: sparse and contiguous forms together, zero counts at both ends of the contiguous window
+            nb += 1; base = rng.choice(uni); bins = {}
+            for _ in range(rng.randint(0, 4)): bins[min(max(base + rng.randint(-12, 12), I32MIN), I32MAX)] = weight(rng)
+            off = min(max(base + rng.randint(-12, 12), I32MIN), I32MAX - 20)
+            contig = [Fraction(0)] * rng.randint(0, 3) + [rng.choice([Fraction(0), weight(rng)]) for _ in range(rng.randint(0, 8))] + [Fraction(0)] * rng.randint(0, 3)
+            emit("protomk q%d bins=%s contig=%d:%s" % (nb, ",".join("%d:%s" % (i, wh(w)) for i, w in bins.items()), off, ",".join(wh(w) for w in contig)), "ok")
+            emit("fromproto %s q%d" % (r, nb), "ok")
+            for i, w in sorted(bins.items()): sh[r].add(i, w)
+            for j, w in enumerate(contig): sh[r].add(off + j, w)
+            obs(r)
         elif op == "codec" and with_codec:
             r2 = rng.choice([x for x in regs if x != r]); nb += 1; b = "b%d" % nb
             pre = "".join("%02x" % rng.getrandbits(8) for _ in range(rng.choice([0, 0, 3])))
